@@ -6,6 +6,12 @@ AGG_TRUST = ["sort.SliceStable is a correct stable sort (modelled by List.mergeS
              "Go map iteration = arbitrary permutation (order oracle)"]
 
 PROPS = {
+    "C03": {
+        "lean": ["PP.Props.C03", "PP.Props.C09b", "PP.Tie.Scan", "PP.Tie.Reader"],
+        "what": "Total robustness: scan_safe (an invariant tying the 19 scanner states to the structure the Go code indexes into; from it no line, for any classifier outcome, reaches a nil dereference, an index panic or the explicit panic()), scan_first_flags, funcInit_no_slice (Func.Init's slice expressions stay in range for every symbol), scanL_no_panic / scanB_no_panic / scanSnapshot_no_panic (whole loop, every delivery), scanB_fuel + scanSnapshot_total (termination: one line per iteration), scan_calls_le_lines, aggregate_total (merge and less never index out of range, every level), parseArgs_wf / scanL_wf (every parsed argument is well-formed - the hypothesis of C05/C12); harness: corpus of past crashers + grammar-aware mutants + all line-kind sequences, each scanned repeatedly, aggregated at all levels, rendered as text and HTML and run through process() under recover with a time bound.",
+        "partial": "panic-freedom and running time of Go's regexp, html/template, fmt and go/parser are not proved (they are exercised by the mutation stream only); linear wall-clock time is supported by step counts (one scan per line, one fill per delivered chunk) and a doubling measurement, not by a theorem about the Go runtime.",
+        "trusted": ["regexp, html/template, fmt, go/parser do not panic (exercised, not modelled)", "io.Reader contract"],
+    },
     "C04": {
         "lean": ["PP.Props.C04", "PP.Tie.Agg"],
         "what": "Aggregation is a partition that conserves goroutines: theorems agg_ids_perm, agg_ids_sorted_nonempty, agg_ids_disjoint, agg_first_iff, agg_one_first for every order oracle, level and snapshot; harness: direct partition oracle on the implementation + model/implementation bucket correspondence under three iteration orders.",
